@@ -17,24 +17,99 @@ fn key(b: u8) -> Vec<u8> {
 #[kani::proof]
 #[kani::unwind(14)]
 fn c10_balances_flush() {
-    unsafe { fmtm::CONST_ROWS = true; gfs::FAULT_AT = kani::any(); }
+    unsafe { fmtm::CONST_ROWS.v = true; gfs::FAULT_AT.v = kani::any(); }
     let mut cb = mk_dump(4);
     cb.unspents.insert(key(1), common::UnspentValue { block_height: 1, value: 5, address: String::from("a") });
     cb.unspents.insert(key(2), common::UnspentValue { block_height: 1, value: 6, address: String::from("b") });
     match cb.on_complete(1) {
         Ok(()) => unsafe {
-            assert!(!gfs::WRITE_FAILED, "C10:exit_0_implies_no_write_failed");
-            assert!(gfs::RENAMES == 1, "C10:exit_0_implies_final_name");
+            assert!(!gfs::WRITE_FAILED.v, "C10:exit_0_implies_no_write_failed");
+            assert!(gfs::RENAMES.v == 1, "C10:exit_0_implies_final_name");
             assert!(cb.writer.buffer().is_empty(), "C10:exit_0_implies_nothing_left_buffered");
-            assert!(gfs::ACCEPTED[3] == gfs::SNAP_AT_FIRST_RENAME[3], "C10:no_bytes_written_after_the_rename");
-            assert!(gfs::ACCEPTED[3] == 6, "C08:header_plus_one_row_per_address");
+            assert!(gfs::ACCEPTED.v[3] == gfs::SNAP_AT_FIRST_RENAME.v[3], "C10:no_bytes_written_after_the_rename");
+            assert!(gfs::ACCEPTED.v[3] == 6, "C08:header_plus_one_row_per_address");
         },
         Err(e) => {
             core::mem::forget(e);
-            assert!(unsafe { gfs::RENAMES } == 0, "C10:write_failure_leaves_no_final_named_file");
-            kani::cover!(unsafe { gfs::WRITE_FAILED }, "write failed");
+            assert!(unsafe { gfs::RENAMES.v } == 0, "C10:write_failure_leaves_no_final_named_file");
+            kani::cover!(unsafe { gfs::WRITE_FAILED.v }, "write failed");
         }
     }
-    kani::cover!(unsafe { !gfs::WRITE_FAILED && gfs::WRITE_CALLS >= 1 }, "successful run");
+    kani::cover!(unsafe { !gfs::WRITE_FAILED.v && gfs::WRITE_CALLS.v >= 1 }, "successful run");
+    core::mem::forget(cb);
+}
+
+// ---- C08 aggregate: one row per distinct address with the exact sum ---------------------------
+// Three unspent entries with addresses from {"a","b"} (symbolic choice) and symbolic values <= 3, so
+// every sum is a single decimal digit and the real formatting stays tractable. Row order follows the
+// map model's slot order (the property only speaks about the row *set*; the oracle builds the rows in
+// first-appearance order, which is what the model iterates in - on the real HashMap any order is fine).
+//@ id=C08 tier=quick name=c08_aggregate timeout=2400 role=aggregate bound=3-entries,addresses-from-{a,b},values<=3,real-formatting mem=20 fn=Balances::on_complete
+#[kani::proof]
+#[kani::unwind(24)]
+fn c08_aggregate() {
+    let which: [bool; 3] = kani::any(); // true = "a", false = "b"
+    let v: [u64; 3] = kani::any();
+    kani::assume(v[0] <= 3 && v[1] <= 3 && v[2] <= 3);
+    let mut cb = mk_dump(64);
+    let mut i = 0;
+    while i < 3 {
+        let a = if which[i] { String::from("a") } else { String::from("b") };
+        cb.unspents.insert(key(i as u8 + 1), common::UnspentValue { block_height: 1, value: v[i], address: a });
+        i += 1;
+    }
+    match cb.on_complete(1) {
+        Ok(()) => {}
+        Err(e) => { core::mem::forget(e); assert!(false, "C08:completion_ok"); return; }
+    }
+    // oracle
+    let mut sum_a = 0u64;
+    let mut sum_b = 0u64;
+    let mut has_a = false;
+    let mut has_b = false;
+    let mut first_is_a = which[0];
+    let mut i = 0;
+    while i < 3 {
+        if which[i] { sum_a += v[i]; has_a = true; } else { sum_b += v[i]; has_b = true; }
+        i += 1;
+    }
+    let mut want = [0u8; 32];
+    let head = b"address;balance\n";
+    let mut n = 0;
+    while n < head.len() { want[n] = head[n]; n += 1; }
+    let mut round = 0;
+    while round < 2 {
+        let a_turn = (round == 0) == first_is_a;
+        if a_turn && has_a { want[n] = b'a'; want[n + 1] = b';'; want[n + 2] = b'0' + sum_a as u8; want[n + 3] = b'\n'; n += 4; }
+        if !a_turn && has_b { want[n] = b'b'; want[n + 1] = b';'; want[n + 2] = b'0' + sum_b as u8; want[n + 3] = b'\n'; n += 4; }
+        round += 1;
+    }
+    unsafe {
+        assert!(gfs::ACCEPTED.v[3] == n, "C08:header_plus_one_row_per_distinct_address");
+        let mut i = 0;
+        while i < n { assert!(gfs::WLOG.v[3][i] == want[i], "C08:balance_is_the_exact_sum_of_the_address_outputs"); i += 1; }
+        assert!(gfs::RENAMES.v == 1, "C08:file_gets_final_name");
+    }
+    kani::cover!(has_a && has_b && sum_a == 6, "two addresses, one with two outputs summing to 6");
+    kani::cover!(!has_b && sum_a == 9, "one address owning all three outputs");
+    kani::cover!(has_a && sum_a == 0, "zero balance address is still listed once");
+    core::mem::forget(cb);
+}
+
+// C02: file name carries start and last height
+//@ id=C02,C08 tier=quick name=c02_balances_name timeout=1800 role=names bound=Balances,start-12,last-345 mem=20 fn=Balances::on_start,Balances::on_complete
+#[kani::proof]
+#[kani::unwind(40)]
+fn c02_balances_name() {
+    let mut cb = mk_dump(64);
+    match cb.on_start(12) { Ok(()) => {}, Err(e) => { core::mem::forget(e); } }
+    match cb.on_complete(345) { Ok(()) => {}, Err(e) => { core::mem::forget(e); assert!(false, "C02:completion_ok"); } }
+    let want = b"d/balances-12-345.csv";
+    unsafe {
+        assert!(gfs::RENAMES.v == 1 && gfs::RENAME_TO_LEN.v[0] == want.len(), "C02:file_name_carries_start_and_last_height");
+        let mut i = 0;
+        while i < want.len() { assert!(gfs::RENAME_TO.v[0][i] == want[i], "C02:file_name_carries_start_and_last_height"); i += 1; }
+    }
+    kani::cover!(true, "evaluated");
     core::mem::forget(cb);
 }
